@@ -142,12 +142,14 @@ static int cmp_find(const void *a, const void *b, void *p)
 
 #define SCOPE(nl, nk, np, cm) ((nl) | (nk) << 4 | (np) << 8 | (cm) << 20)
 static unsigned init_toggle;
+static void nest_reset(void);
 static void st_create(int scope)
 {
     int i;
     /* scope: bits 0-3 nlists, 4-7 nkeys, 8-19 npool, 20-22 offset class of list 0..2 */
     nlists = scope & 15; nkeys = (scope >> 4) & 15; npool = (scope >> 8) & 0xfff;
-    for (i = 0; i < npool; i++) pool[i] = new_elem(i, i % nkeys);
+    for (i = 0; i < npool; i++) { pool[i] = new_elem(i, i % nkeys);  }
+    nest_reset();
     for (i = 0; i < nlists; i++) {
         cls[i] = (scope >> (20 + i)) & 1;
         memset(&L[i], 0x77, sizeof(L[i]));
@@ -379,15 +381,161 @@ static void audit_all(int level)
     if (level >= 2) for (l = 0; l < nlists; l++) walk_list(l);
 }
 
+/* ---- nested lists (mode "clear", C15): a list of directories each owning a list of files ----
+ * Right before a clear some elements of the list (the first, the last, several, all, one) are given a private,
+ * non-empty list of individually allocated sub-elements.  The outer clear callback destroys what the element
+ * owns first: it clears the inner list through the library with ANOTHER callback function.  That is a clear of
+ * another object of the same type running inside a clear: every outer element must still reach the outer
+ * callback exactly once, every sub-element the callback of its own clear call exactly once, nothing the wrong
+ * function, nothing after its callback returned, and both lists end empty and usable.  Half of the inner lists
+ * keep the overwritten sub-elements until their clear has returned and verify the overwrite then (a write after
+ * the callback shows without a sanitizer, a read runs into 0xa5a5.. links), the others free them at once. */
+#define SMAGIC 0x5ab1e115u
+#define SUBMAX 3
+struct subl;
+struct felem {
+    uint32_t magic;
+    int key;
+    struct subl *owner;
+    uint64_t pad0;
+    struct cstl_dlist_node node;
+    uint64_t pad1;
+};
+struct subl {
+    uint32_t magic;
+    int n, seen, hold, owner_id;
+    struct felem *se[SUBMAX];           /* linked sub-elements (NULL once handed over) */
+    struct felem *held[SUBMAX];         /* hold: handed over and overwritten, not freed yet */
+    struct felem *spare;                /* for the push that proves the cleared inner list usable */
+    struct cstl_dlist l;
+};
+static struct subl *SUB[MAXE];          /* by element id */
+static int nest_on;                     /* mode "clear" */
+static struct subl *cur_sub;            /* the inner list being cleared right now */
+static int outer_running, inner_done, nsubs;
+static struct felem *new_felem(struct subl *s, int key)
+{
+    struct felem *x = vrt_alloc(sizeof(*x));
+    memset(x, 0x5e, sizeof(*x));
+    x->magic = SMAGIC; x->key = key; x->owner = s;
+    return x;
+}
+static void sub_attach(struct elem *e, unsigned salt)
+{
+    struct subl *s = vrt_alloc(sizeof(*s));
+    int i;
+    memset(s, 0x5e, sizeof(*s));
+    s->magic = SMAGIC; s->n = 1 + (int)(salt % SUBMAX); s->seen = 0; s->hold = (salt >> 3) & 1; s->owner_id = e->id;
+    VRT_OP2("dlist.nested.fill", "inner list of e%ld, %ld sub-elements", e->id, s->n);
+    if (salt & 4) cstl_dlist_init(&s->l, offsetof(struct felem, node));
+    else s->l = (struct cstl_dlist)CSTL_DLIST_INITIALIZER(s->l, struct felem, node);
+    for (i = 0; i < SUBMAX; i++) s->se[i] = s->held[i] = NULL;
+    for (i = 0; i < s->n; i++) {
+        s->se[i] = new_felem(s, i);
+        if ((salt >> (4 + i)) & 1) cstl_dlist_push_front(&s->l, s->se[i]); else cstl_dlist_push_back(&s->l, s->se[i]);
+    }
+    s->spare = new_felem(s, SUBMAX);
+    SUB[e->id] = s; nsubs++;
+    VRT_COUNT("nested.attached");
+}
+static void sub_clear_cb(void *ev, void *p)
+{
+    struct felem *x = ev;
+    int i, k = -1;
+    VRT_CHECK(cur_sub != NULL, "dlist.clear.nested.callback-outside-its-clear",
+              "the callback given to the clear of an inner list was invoked while no inner clear is running");
+    VRT_CHECK(p == NULL, "dlist.clear.nested.priv", "inner clear callback got priv %p", p);
+    for (i = 0; i < cur_sub->n; i++) if (cur_sub->se[i] == x) k = i;
+    VRT_CHECK(k >= 0, "dlist.clear.nested.foreign-element", "inner clear callback was handed something that is not a linked element of the inner list being cleared (or an element twice)");
+    VRT_CHECK(x->magic == SMAGIC && x->owner == cur_sub, "dlist.clear.nested.element-damaged", "sub-element handed to the inner clear callback does not carry its owner's marks any more");
+    cur_sub->se[k] = NULL;
+    cur_sub->seen++;
+    memset(x, 0xa5, sizeof(*x));
+    if (cur_sub->hold) cur_sub->held[k] = x; else vrt_free(x);
+    VRT_COUNT("clear.nested.handed-over");
+}
+/* the owning element is being destroyed (inside the outer clear callback): clear its list through the library */
+static void sub_destroy(struct elem *e)
+{
+    struct subl *s = SUB[e->id], *prev = cur_sub;
+    int i;
+    size_t k;
+    cur_sub = s; s->seen = 0;
+    VRT_OP2("dlist.nested.clear", "inner list of e%ld (%ld sub-elements), from the clear callback of the outer list", e->id, s->n);
+    cstl_dlist_clear(&s->l, sub_clear_cb);
+    cur_sub = prev;
+    VRT_CHECK(s->seen == s->n, "dlist.clear.nested.count", "inner clear handed over %d of %d sub-elements", s->seen, s->n);
+    for (i = 0; i < s->n; i++) if (s->held[i] != NULL) {
+        const unsigned char *b = (const unsigned char *)s->held[i];
+        for (k = 0; k < sizeof(struct felem) && b[k] == 0xa5; k++) ;
+        VRT_CHECK(k == sizeof(struct felem), "dlist.clear.nested.touched-after-callback", "sub-element written at byte %zu after its clear callback had returned", k);
+        vrt_free(s->held[i]); s->held[i] = NULL;
+        VRT_COUNT("clear.nested.overwrite-verified");
+    }
+    VRT_CHECK(cstl_dlist_size(&s->l) == 0 && cstl_dlist_front(&s->l) == NULL && cstl_dlist_back(&s->l) == NULL,
+              "dlist.clear.nested.not-empty", "inner list after its clear: size %zu, front/back not both NULL", cstl_dlist_size(&s->l));
+    /* usable like a fresh one */
+    cstl_dlist_push_back(&s->l, s->spare);
+    VRT_CHECK(cstl_dlist_size(&s->l) == 1 && cstl_dlist_front(&s->l) == (void *)s->spare && cstl_dlist_back(&s->l) == (void *)s->spare
+              && s->l.h.n == &s->spare->node && s->l.h.p == &s->spare->node && s->spare->node.n == &s->l.h && s->spare->node.p == &s->l.h,
+              "dlist.clear.nested.reuse", "push_back on the cleared inner list: size %zu, front/back/links are not the one element", cstl_dlist_size(&s->l));
+    VRT_CHECK(cstl_dlist_pop_front(&s->l) == (void *)s->spare && cstl_dlist_size(&s->l) == 0, "dlist.clear.nested.reuse", "pop_front on the re-used inner list did not return its only element");
+    vrt_free(s->spare);
+    memset(s, 0xa5, sizeof(*s));
+    vrt_free(s);
+    SUB[e->id] = NULL; nsubs--;
+    inner_done++;
+    VRT_COUNT("clear.nested.lists-cleared");
+}
+static void nest_reset(void)
+{
+    int i;
+    for (i = 0; i < npool; i++) SUB[i] = NULL;
+    cur_sub = NULL; outer_running = 0; inner_done = 0; nsubs = 0;
+}
+/* give some elements of list l a list of their own; which ones changes from clear to clear */
+static void sub_attach_some(int l)
+{
+    const unsigned salt = vrt_case_tick() * 2654435761u + 0x9e37u;
+    const int len = Mn[l], variant = (int)((salt >> 28) % 5);
+    int i, owners = 0;
+    for (i = 0; i < len; i++) {
+        const unsigned h = (salt ^ (unsigned)i * 40503u) * 2246822519u >> 16;
+        int own;
+        switch (variant) {
+        case 0: own = len <= 16 || i == 0 || i == len - 1 || h % 4 == 0; break;       /* all (long lists: first, last, every fourth) */
+        case 1: own = i == 0 || i == len - 1; break;                                    /* both ends */
+        case 2: own = i == 0 || i == len - 1 || h % 3 == 0; break;                      /* both ends and some in between */
+        case 3: own = i != 0 && i != len - 1 && h % 2 == 0; break;                      /* neither end */
+        default: own = len <= 16 ? ((salt >> 8) % (unsigned)len == (unsigned)i) : h % 8 == 0; break;    /* one, anywhere */
+        }
+        if (!own || SUB[M[l][i]->id] != NULL) continue;
+        sub_attach(M[l][i], h ^ (salt >> 7));
+        owners++;
+        if (i == 0) VRT_COUNT("clear.nested.first-element-owns-a-list");
+        if (i == len - 1) VRT_COUNT("clear.nested.last-element-owns-a-list");
+        if (i > 0 && i < len - 1) VRT_COUNT("clear.nested.inner-element-owns-a-list");
+    }
+    if (owners >= 2) VRT_COUNT("clear.nested.several-owners");
+    if (owners > 0 && owners < len) VRT_COUNT("clear.nested.owners-and-plain-elements");
+}
+
 /* clear callback: exactly-once state machine, poison, free */
 static int clear_list, clear_seen;
 static void clear_cb(void *e, void *p)
 {
     struct elem *x = e;
+    VRT_CHECK(cur_sub == NULL, "dlist.clear.nested.wrong-callback", "the clear of an inner list invoked the callback given to the clear of the outer list");
+    VRT_CHECK(outer_running, "dlist.clear.callback-outside-its-clear", "clear callback invoked while its clear is not running");
     VRT_CHECK(p == NULL, "dlist.clear.priv", "clear callback got priv %p", p);
     VRT_CHECK(x->magic == MAGIC, "dlist.clear.non-element", "clear callback for a non-element / twice");
     VRT_CHECK(x->where[cls[clear_list]] == clear_list, "dlist.clear.non-member", "clear callback for element %d which is not in list %d", x->id, clear_list);
     clear_seen++;
+    if (inner_done) VRT_COUNT("clear.nested.outer-went-on-after-inner-clear");
+    if (SUB[x->id] != NULL) {
+        sub_destroy(x);
+        VRT_OP2("dlist.clear", "l%ld (goes on after the nested clear in the callback for e%ld)", clear_list, x->id);
+    }
     poison_free_renew(x, cls[clear_list]);
     VRT_COUNT("clear.handed-over");
 }
@@ -692,9 +840,13 @@ static int st_apply(uint32_t op, int audit)
     case K_CLEAR:
         vrt_state(Mn[l1] == 0 ? "empty" : "nonempty");
         VRT_OP2("dlist.clear", "l%ld (len %ld)", l1, Mn[l1]);
-        clear_list = l1; clear_seen = 0;
+        if (nest_on && Mn[l1] > 0) { sub_attach_some(l1); VRT_OP2("dlist.clear", "l%ld (len %ld)", l1, Mn[l1]); }
+        clear_list = l1; clear_seen = 0; outer_running = 1; inner_done = 0;
         if (vrt_case_tick() & 1) cstl_dlist_clear(&L[l1], clear_cb); else VRT_NOMEM(cstl_dlist_clear(&L[l1], clear_cb));     /* clear has no way to fail: also with an allocator that refuses everything */
+        outer_running = 0;
         VRT_CHECK(clear_seen == Mn[l1], "dlist.clear.count", "clear handed over %d of %d elements", clear_seen, Mn[l1]);
+        VRT_CHECK(nsubs == 0, "dlist.clear.nested.owner-not-handed-over", "%d elements that own a list were not handed to the clear callback", nsubs);
+        if (inner_done) VRT_COUNT("op.clear.with-nested-clears");
         if (Mn[l1]) VRT_COUNT("op.clear.nonempty");
         Mn[l1] = 0;
         VRT_COUNT("op.clear");
@@ -1250,6 +1402,7 @@ static uint64_t nrandom(void)
 static uint64_t ncases(void)
 {
     is_clear_mode = strcmp(vrt_mode, "clear") == 0;
+    nest_on = is_clear_mode;
     if (is_clear_mode) {
         if (vrt_thorough) { scopes = quick_scopes; nscopes = NSCOPES(quick_scopes); }
         else { scopes = small_scopes; nscopes = NSCOPES(small_scopes); }
@@ -1276,7 +1429,7 @@ static void winit(void)
 }
 
 /* the names up to "sort.runs.cases" are observations every mode makes; the rest belong to the cases that mode "clear" (C15) leaves out */
-static const char *required_clear[64];
+static const char *required_clear[96];
 static const char *const required[] = {
     "op.push_front", "op.push_back", "op.pop_front", "op.pop_back", "op.pop_front.empty", "op.pop_back.empty",
     "op.insert", "op.insert.after-last", "op.erase.only", "op.erase.first", "op.erase.last", "op.erase.inner",
@@ -1295,6 +1448,13 @@ static const char *const required[] = {
     "sort.runs.cases", "sort.runs.more-than-64-runs", "sort.runs.more-than-1024-runs", "sort.runs.ascending-runs", "sort.runs.descending-runs",
     "sort.runs.comparator-agrees-with-runs", "sort.runs.comparator-against-runs", "sort.comparator-sorted-another-list", NULL
 };
+/* mode "clear" only: a clear inside a clear */
+static const char *const required_nested[] = {
+    "nested.attached", "clear.nested.handed-over", "clear.nested.lists-cleared", "clear.nested.overwrite-verified",
+    "clear.nested.first-element-owns-a-list", "clear.nested.last-element-owns-a-list", "clear.nested.inner-element-owns-a-list",
+    "clear.nested.several-owners", "clear.nested.owners-and-plain-elements", "clear.nested.outer-went-on-after-inner-clear",
+    "op.clear.with-nested-clears", NULL
+};
 static const struct vrt_harness H = { "dlist", ncases, run_case, winit, NULL, required, 16 };
 static struct vrt_harness H_clear;
 
@@ -1305,6 +1465,7 @@ int main(int argc, char **argv)
     for (i = 1; i + 1 < argc; i++) if (!strcmp(argv[i], "--mode") && !strcmp(argv[i + 1], "clear")) {
         int k;
         for (k = 0; k < 63 && required[k] && strcmp(required[k], "sort.runs.cases"); k++) required_clear[k] = required[k];
+        for (i = 0; required_nested[i]; i++) required_clear[k++] = required_nested[i];
         required_clear[k] = NULL;
         H_clear = H; H_clear.required = required_clear;
         return vrt_main(argc, argv, &H_clear);
